@@ -55,6 +55,7 @@ type runner struct {
 
 	recStarted, recDone  uint64 // Recover calls started / finished (historical readers)
 	recoverWhileIndexing bool   // a Recover ran while the initial index run was unfinished
+	elementless          bool   // a flattened trienode history had no index elements
 }
 
 type recoverRec struct {
@@ -339,6 +340,44 @@ func (rn *runner) applyMuts(c *content, ms []Mut) {
 	}
 }
 
+// noteFlattened records whether a flattened transition changed nothing but the
+// account trie's root node: its trienode history has no index elements.
+func (rn *runner) noteFlattened(flat []common.Hash) {
+	if !rn.p.K.Indexing || rn.p.K.TrienodeHistory < 0 {
+		return
+	}
+	for _, r := range flat {
+		c := rn.m.states[r]
+		p := rn.m.states[rn.parentOf[r]]
+		if c == nil || p == nil {
+			continue
+		}
+		changed := 0
+		owners := map[common.Hash]bool{}
+		for o := range c.nodes {
+			owners[o] = true
+		}
+		for o := range p.nodes {
+			owners[o] = true
+		}
+		for o := range owners {
+			for path, blob := range c.nodes[o] {
+				if !eq(p.nodes[o][path], blob) && !(o == (common.Hash{}) && path == "") {
+					changed++
+				}
+			}
+			for path := range p.nodes[o] {
+				if _, ok := c.nodes[o][path]; !ok && !(o == (common.Hash{}) && path == "") {
+					changed++
+				}
+			}
+		}
+		if changed == 0 {
+			rn.elementless = true
+		}
+	}
+}
+
 // keepTwoAccounts: with trienode history indexing, a transition that changes
 // nothing but the account trie's root node (a one-account state) produces a
 // history without index elements, on which the indexer wedges (recorded finding
@@ -403,6 +442,7 @@ func (rn *runner) update(pst, child *state) *simcore.Violation {
 	if outcome == updAdded {
 		rn.parentOf[child.root] = pst.root
 	}
+	rn.noteFlattened(flat)
 	t0 := rn.beginMut(pre)
 	rn.block++
 	block := rn.block
@@ -469,6 +509,7 @@ func (rn *runner) commit(sel int) *simcore.Violation {
 	var flat []common.Hash
 	if !isDisk {
 		flat = rn.m.cap(root, 0)
+		rn.noteFlattened(flat)
 	}
 	t0 := rn.beginMut(pre)
 	rn.mu.Unlock()
